@@ -13,6 +13,7 @@
 package sio
 
 import (
+	"bytes"
 	"context"
 	"encoding/json"
 	"fmt"
@@ -601,8 +602,12 @@ func ResolveSpecSource(ctx context.Context, specSource interface{}) (*crew.SpecS
 		}
 
 		var spec core.Spec
-		if 0 < len(body) && body[0] == '{' {
-			err = json.Unmarshal(body, &spec)
+		// A JSON document may begin with white space (or a byte
+		// order mark), and it is still JSON: as YAML its
+		// camel-case properties (patternSyntax, errorNode, ...)
+		// would be ignored.
+		if doc := bytes.TrimSpace(bytes.TrimPrefix(body, []byte("\xef\xbb\xbf"))); 0 < len(doc) && doc[0] == '{' {
+			err = json.Unmarshal(doc, &spec)
 		} else {
 			err = yaml.Unmarshal(body, &spec)
 		}
